@@ -176,7 +176,7 @@ Proof.
     destruct HN as (_ & _ & _ & _ & _ & _ & _ & _ & _ & _ & HN).
     assert (HB: 0 <= backoff) by (destruct HN as [HN|[HN|HN]]; lia).
     destruct (compute_timeout_inl _ _ _ _ _ HTO ltac:(lia)) as (T1 & T2 & T3).
-    subst e'. simpl. exists (new ++ [mk_event s1 ns tcp backoff T e ob]).
+    subst e'. simpl. exists (new ++ [mk_event s1 ns tcp backoff T e ob clock2]).
     split; [rewrite HE, app_assoc; reflexivity|].
     apply Forall_app. split; auto. constructor; auto.
     unfold ev_in_lifetime, mk_event; simpl. lia.
@@ -206,7 +206,7 @@ Proof.
     destruct (compute_timeout_inl _ _ _ _ _ HT ltac:(lia)) as (T1 & T2 & T3).
     destruct (observe_clock _ _ _ _ _ _ HO (Hdur _)) as (O1 & O2).
     subst e'. simpl. split; [unfold deadline; lia|]. split; [lia|]. split.
-    + exists (new ++ [mk_event s1 ns tcp backoff T e ob]).
+    + exists (new ++ [mk_event s1 ns tcp backoff T e ob clock2]).
       split; [rewrite HE, app_assoc; reflexivity|].
       apply Forall_app. split; auto. constructor; auto.
       unfold ev_in_lifetime, mk_event; simpl. lia.
